@@ -2,7 +2,7 @@
 from .. import core
 from . import c04
 
-ABORT = {"log", "enter", "probe", "crash", "registration-panic", "writer"}
+ABORT = {"log", "enter", "probe", "crash", "registration-panic", "writer", "limit"}
 
 
 def run(chk):
